@@ -31,6 +31,8 @@ def g_call(u, cfg, highlevel=False):
         ops.append("refresh")
     if highlevel:
         ops.append("fetch")
+    else:
+        ops.append("walk")
     op = u.choice(ops)
     if op == "get":
         return ("get", rb.oid_text(g_oid_any(u, 24)))
@@ -44,6 +46,15 @@ def g_call(u, cfg, highlevel=False):
         return ("getbulk1", rb.oid_text(g_oid_any(u, 16)), r)
     if op == "fetch":
         return ("fetch1", rb.oid_text(gen.g_oid(u, 2, 16)))
+    if op == "walk":
+        # a whole walk: every follow-up request must ask for exactly the last OID the agent returned
+        base = gen.g_oid(u, 2, 6)
+        sufs = set()
+        for _ in range(u.range(1, 8)):
+            sufs.add(tuple(gen.g_arc(u) for _ in range(u.range(1, 4))))
+        names = sorted(base + x for x in sufs)
+        method = "getnext" if (cfg.version == "v1" or u.bool()) else "getbulk"
+        return ("walk", method, rb.oid_text(base), [rb.oid_text(n) for n in names], u.range(1, 4))
     return ("refresh",)
 
 
@@ -118,6 +129,14 @@ def execute_nb(G, c):
             call = step["call"]
             op = call[0]
             it = None
+            if op == "walk":
+                n = run_walk(G, cl, ln, model, cfg, call)
+                info["requests"] += n
+                info["nt"] += n
+                info["walk_followups"] = info.get("walk_followups", 0) + max(0, n - 1)
+                sent_before += n
+                recv_before += n
+                continue
             try:
                 if op in ("getnext1", "getbulk1"):
                     it = cl.make_iter(call[1]) if op == "getnext1" else cl.make_iter(call[1], call[2])
@@ -171,6 +190,41 @@ def fit_for_highlevel(cfg, st):
     st = dict(st)
     st["call"] = ("get_many", oids)
     return st
+
+
+def run_walk(G, cl, ln, model, cfg, call):
+    """One complete GetNext/GetBulk walk against scripted replies; returns the number of requests checked."""
+    _, method, base, names, chunk = call
+    it = cl.make_iter(base) if method == "getnext" else cl.make_iter(base, chunk)
+    current = base
+    pos = 0
+    nreq = 0
+    k = 1 if method == "getnext" else chunk
+    while True:
+        cl.send(method, it)
+        got = ln.recv_all()
+        if len(got) != 1:
+            raise core.Failure("datagram-count", "walk step emitted %d datagrams" % len(got))
+        exp = ("getnext1", current) if method == "getnext" else ("getbulk1", current, chunk)
+        m = wire.check_structure(model, ("walk-step",) + exp, got[0], wire.expected_pdu(exp))
+        nreq += 1
+        part = names[pos:pos + k]
+        pos += len(part)
+        if part:
+            vbs = [rb.varbind(rb.enc_oid(rb.parse_oid_text(nm)), rb.enc_int(i)) for i, nm in enumerate(part)]
+        else:
+            vbs = [rb.varbind(rb.enc_oid(rb.parse_oid_text(current)), rb.tlv(rb.T_ENDOFMIBVIEW, b""))]
+        kw = {"boots": model.boots, "time": model.time} if cfg.version == "v3" else {}
+        ln.send(ag.build_reply(cfg, m, vbs, **kw))
+        try:
+            cl.recv(method, it)
+        except StopAsyncIteration:
+            return nreq
+        if not part:
+            raise core.Failure("walk-did-not-stop", "walk continued after endOfMibView")
+        current = part[-1]
+        if nreq > len(names) + 2:
+            raise core.Failure("walk-did-not-stop", "more requests than entries")
 
 
 def execute_highlevel(G, c):
@@ -232,6 +286,7 @@ def run(rep, tier):
                  classes=["mode:" + c["mode"], "nsess:%d" % len(c["cfgs"])] + ["ver:" + x.version for x in c["cfgs"]]
                  + ["call:" + s["call"][0] for s in c["steps"]] + (["has_long_form"] if info["long"] else []))
         rep.count("requests_checked", info["requests"])
+        rep.count("walk_followup_requests_checked", info.get("walk_followups", 0))
 
     n = 2000 if tier == "quick" else 50000
     core.run_hypothesis(rep, gen.case_strategy(build_case, 4096), body, n, describe=describe)
@@ -241,6 +296,9 @@ def replay(rep, case, body=None):
     G = drivers.load()
     c = {"mode": case["mode"], "cfgs": [gen.cfg_from_json(x) for x in case["_cfgs"]], "kw": case["kw"],
          "steps": [{"s": s["s"], "call": tuple(s["call"]), "action": s["action"], "p": s["p"]} for s in case["steps"]]}
+    for st in c["steps"]:
+        if st["call"][0] == "walk":
+            st["call"] = (st["call"][0], st["call"][1], st["call"][2], list(st["call"][3]), st["call"][4])
     try:
         execute_nb(G, c) if c["mode"] == "nb" else execute_highlevel(G, c)
     except core.Failure as f:
